@@ -82,7 +82,11 @@ func run(c *mon.Ctx) {
 			return
 		}
 		if err != nil || x == nil {
-			c.Fail("decode:error", fmt.Sprintf("a well-formed section was rejected: %v [%s]", err, s35.Shape(&s)), wit{mon.Hex(snap), s35.Shape(&s), fmt.Sprint(err)})
+			sig := "decode:error"
+			if s.Ptr == 255 {
+				sig = "decode:error/pointer_field-255"
+			}
+			c.Fail(sig, fmt.Sprintf("a well-formed section was rejected: %v [%s]", err, s35.Shape(&s)), wit{mon.Hex(snap), s35.Shape(&s), fmt.Sprint(err)})
 			return
 		}
 		if !bytes.Equal(x.Data(), sec) {
